@@ -6,22 +6,29 @@ DRIVER = "C20"
 GENERATED = []
 SOURCES = ["src/allmydata/dirnode.py"]
 DESIGN_REF = "DESIGN.md §2 C20"
-TECHNIQUE = ("Lean 4 theorems over an executable model of the directory edit layer (refinement of any op history over any "
-             "number of directories to folds of map updates keyed by the normalized name; overwrite-mode, rename and "
-             "timestamp theorems); differential correspondence of seeded op histories on real DirectoryNodes over the "
+TECHNIQUE = ("Lean 4 theorems over an executable model of the directory edit layer: refines_map (any op history over any "
+             "number of directories = folds of map updates keyed by the normalized name, results and errors included), "
+             "names_equal_up_to_normalization, metadata_rules (update_metadata key by key), no_overwrite_never_replaces, "
+             "only_files_never_replaces_dir, failed_rename_keeps_old_link, rename_never_loses_child, "
+             "linkcrtime_preserved_linkmotime_now, linkmotime_monotone, retries_refine_map (the modifier retry loop with "
+             "first_time=False); differential correspondence of seeded op histories on real DirectoryNodes over the "
              "in-process grid with a virtual clock (result / error of every operation and the full listing of every "
-             "directory after every operation); implementation-side monitor against a Python dict reference")
-LEVEL_TEXT = ("Refinement to a name->(child, metadata) map proved in Lean for all histories, all directories, every "
-              "idempotent normalize; no-overwrite / only-files / failed-rename / rename-never-loses-child / linkcrtime / "
-              "linkmotime theorems proved outright.  The model is tied to dirnode.py by comparing, after every operation "
-              "of seeded histories on real directories, the result or error and the complete listing (names, kinds, "
-              "write and read caps, metadata including tahoe.linkcrtime/linkmotime).  Concurrent adds by two holders of "
-              "the write cap (UncoordinatedWriteError retry path, first_time=False) are outside the single-writer "
-              "refinement theorem and are covered by the monitor: the outcome must be explained by applying both adds to "
-              "one name map in some order (a no-overwrite add never replaces the other writer's entry).")
+             "directory after every operation) and of Deleter.modify through the retry loop; implementation-side monitor "
+             "against a Python dict reference, incl. two-writer scenarios")
+LEVEL_TEXT = ("10 theorems proved in Lean for all histories, all directories, every idempotent normalize: refinement to a "
+              "name->(child, metadata) map, the metadata rules, the overwrite-mode, rename and timestamp clauses, and the "
+              "refinement over modifier retries (Deleter's `first_time and must_exist`; Adder and MetadataSetter ignore "
+              "first_time, so the no-overwrite / only-files refusals apply to re-read contents too).  The model is tied to "
+              "dirnode.py by comparing, after every operation of seeded histories on real directories, the result or error "
+              "and the complete listing (names, kinds, write and read caps, metadata incl. tahoe.linkcrtime/linkmotime), "
+              "and by calling the real Deleter.modify(contents, None, first_time) on real contents.  Monitor only: what a "
+              "publish collision between two uncoordinated holders of the write cap does to the shares (lost edit, "
+              "ExistingChildError from the writer's own partial write; counted, C12's subject) — there the monitor demands "
+              "only that a no-overwrite / only-files add never replaces an existing entry and that nothing foreign appears; "
+              "sequential two-holder histories must be a name map in full.")
 LEVEL_NOTE = ("Lean kernel + standard axioms; model hand-written, tied by correspondence; normalize is a parameter with the "
               "hypothesis norm∘norm = norm (sampled for unicodedata NFC); a stored child is its (kind, write cap, read cap) "
-              "— its re-creation from the stored caps is C19/C16.")
+              "— its re-creation from the stored caps is C19/C16; uploads (add_file) and directory creation are inputs.")
 RULE = ("seeded histories (<=30 ops; longer in thorough) over 3 real mutable directories (each reachable through a "
         "write handle and a read-only handle) of set_node/set_uri/set_children/set_nodes/add_file/create_subdirectory/"
         "delete/set_metadata_for/move_child_to/get/has_child/get_metadata_for with overwrite in {True, False, ONLY_FILES}, "
@@ -34,12 +41,17 @@ RULE = ("seeded histories (<=30 ops; longer in thorough) over 3 real mutable dir
         "add completed — there the monitor demands what the statement says outright (a no-overwrite add never replaces "
         "an entry, also on the retry path; an only-files add never replaces a directory; nothing appears that nobody "
         "wrote) and only counts lost edits of colliding uncoordinated writers —, and sequential modes (the second holder "
-        "starts after the first finished) where a name map is demanded in full), judged by the monitor only")
+        "starts after the first finished) where a name map is demanded in full), judged by the monitor only; plus, on the contents of the first 12 "
+        "histories, Deleter.modify applied as the retry loop applies it (first_time=True, then False on re-read contents with "
+        "and without the child) for every flag combination, compared with the model")
 TRUSTED = ["lean/Tahoe/Dir/Edit.lean is a hand transcription of dirnode.py's modifiers and DirectoryNode edit methods "
-           "(dict as association list; metadata 'tahoe' key as a separate field; node = kind + write cap + read cap + error flag)",
+           "(dict as association list; metadata 'tahoe' key as a separate field; node = kind + write cap + read cap + error flag; "
+           "the retry loop of MutableFileVersion.modify as a list of re-read contents)",
            "harness/grid.py (in-process grid, virtual clock) and the canonicalisation of listings in harness/props/c20.py"]
 ASSUMPTIONS = ["normalize is idempotent (checked for every name used: NFC(NFC(x)) == NFC(x))",
-               "one writer per directory (Deleter's first_time is True; no UncoordinatedWriteError retries)",
+               "the op histories are single-writer (the real modifiers run with first_time=True there); the retry branch is "
+               "modelled and tied separately (retries_refine_map / delretry); share-level outcomes of colliding writers are "
+               "not modelled",
                "for known nodes is_readonly() <=> get_write_uri() is None (checked for every node used)",
                "metadata 'tahoe' values are dicts (the edit operations never store anything else)"]
 
